@@ -1,6 +1,7 @@
 package c36
 
 import (
+	"sync/atomic"
 	"context"
 	"errors"
 	"fmt"
@@ -127,6 +128,9 @@ type resCtrl struct {
 	name      string
 	startIdle bool
 	val       srpc.Invoker
+	// foreign, if set, is attached instead of val: a value that is NOT an
+	// srpc.Invoker, i.e. not a provider of the service
+	foreign any
 
 	mu    sync.Mutex
 	h     directive.ResolverHandler
@@ -177,6 +181,9 @@ type scenario struct {
 	// until a "rel" event lets it complete. Reports then lag behind the model:
 	// what was delivered must be a prefix of what the model expects.
 	backpressure bool
+	// foreign: one more resolver attaches / removes a value that is not an
+	// srpc.Invoker to the lookup ("addf" / "remf"); it is no provider.
+	foreign bool
 }
 
 type sys struct {
@@ -192,6 +199,8 @@ type sys struct {
 	retErr     error
 
 	prov  []*resCtrl // resolver-level providers
+	forn  *resCtrl   // resolver attaching a non-invoker value
+	hasF  bool
 	rels  []func()   // controller-level providers: release funcs (nil = absent)
 	idler *resCtrl
 
@@ -230,6 +239,10 @@ func newSys(sc scenario) *sys {
 			s.prov = append(s.prov, p)
 			add(p)
 		}
+	}
+	if sc.foreign {
+		s.forn = &resCtrl{name: "foreign", startIdle: true, foreign: "not-an-invoker"}
+		add(s.forn)
 	}
 	s.idler = &resCtrl{name: "idler", startIdle: sc.idlerStartsIdle}
 	s.idle = sc.idlerStartsIdle
@@ -275,6 +288,13 @@ func (s *sys) Enabled() []string {
 			evs = append(evs, fmt.Sprintf("add%d", i+1))
 		}
 	}
+	if s.sc.foreign {
+		if s.hasF {
+			evs = append(evs, "remf")
+		} else {
+			evs = append(evs, "addf")
+		}
+	}
 	if s.idle {
 		evs = append(evs, "busy")
 	} else {
@@ -296,6 +316,25 @@ func (s *sys) Apply(ev string) {
 		return
 	}
 	switch {
+	case ev == "addf" || ev == "remf":
+		h := s.forn.handler()
+		if h == nil {
+			s.infra = append(s.infra, "foreign resolver not running")
+			return
+		}
+		if ev == "addf" {
+			id, ok := h.AddValue(s.forn.foreign)
+			if !ok {
+				s.infra = append(s.infra, "AddValue(foreign) rejected")
+				return
+			}
+			s.forn.valID = id
+		} else if _, ok := h.RemoveValue(s.forn.valID); !ok {
+			s.infra = append(s.infra, "RemoveValue(foreign): not found")
+			return
+		}
+		s.hasF = ev == "addf"
+		foreignEvents.Add(1)
 	case strings.HasPrefix(ev, "add"), strings.HasPrefix(ev, "rem"):
 		i := int(ev[3] - '1')
 		adding := ev[:3] == "add"
@@ -550,7 +589,7 @@ func (s *sys) Canon() string {
 		// function of the expected report sequences and of what was delivered
 		return fmt.Sprintf("has=%v idle=%v stream=%v wantER=%v wantIdle=%v pending=%v applied-tail=%v server=%s", s.has, s.idle, s.strm.snapshot(), s.wantER, s.wantIdle, s.strm.isPending(), tailOf(s.applied, 3), s.returned())
 	}
-	return fmt.Sprintf("has=%v idle=%v cancelled=%v stream=%v server=%s", s.has, s.idle, s.cancelled, s.strm.snapshot(), s.returned())
+	return fmt.Sprintf("has=%v foreign=%v idle=%v cancelled=%v stream=%v server=%s", s.has, s.hasF, s.idle, s.cancelled, s.strm.snapshot(), s.returned())
 }
 
 func (s *sys) Close() {
@@ -709,6 +748,8 @@ func componentIDs(run *evid.Run, acc *enum.Acc) {
 	})
 }
 
+var foreignEvents atomic.Int64
+
 func TestC36(t *testing.T) {
 	run := evid.Start("C36", "model_checking")
 
@@ -719,6 +760,7 @@ func TestC36(t *testing.T) {
 		{name: "resolver-providers/idler-starts-idle", nprov: 2, idlerStartsIdle: true},
 		{name: "controller-providers", nprov: 2, ctrlLevel: true},
 		{name: "resolver-provider/slow-remote", nprov: 1, backpressure: true},
+		{name: "resolver-provider/plus-non-invoker-value", nprov: 1, foreign: true},
 	}
 	if !run.Quick() {
 		depth = 12
